@@ -42,6 +42,7 @@
 #include "torrent/download_info.h"
 #include "torrent/exceptions.h"
 #include "torrent/torrent.h"
+#include "torrent/runtime/memory_manager.h"
 
 using namespace ltv;
 namespace fs = std::filesystem;
@@ -146,6 +147,9 @@ struct Case {
     int fo = 0;
     for (auto& f : *fl) if (!f->is_padding() && f->is_open()) fo++;
     o << " fo" << fo;
+    // ChunkManager accounting: one block of chunk_size bytes per mapped node (only one torrent exists at a time)
+    o << " mb" << torrent::runtime::memory_manager()->memory_block_count()
+      << " mu" << torrent::runtime::memory_manager()->memory_usage();
     return o.str();
   }
 
@@ -215,11 +219,38 @@ std::string run_case(Session& S, const std::string& line, uint32_t serial) {
   Torrent& T = *C.T;
   uint32_t np = T.piece_count();
 
+  // ---- Z<k>:<n>: the torrent DESCRIBES file k as ending in n zero bytes (content and piece hashes follow)
+  std::string info = T.info_bytes;
+  {
+    bool any = false;
+    for (auto& t : pert) {
+      if (t[0] != 'Z') continue;
+      size_t c = t.find(':');
+      size_t k = std::stoul(t.substr(1, c - 1));
+      uint64_t nz = std::stoull(t.substr(c + 1));
+      uint64_t off = 0;
+      for (size_t j = 0; j < k && j < C.files.size(); j++) off += C.files[j].len;
+      if (k >= C.files.size() || C.files[k].pad) continue;
+      nz = std::min<uint64_t>(nz, C.files[k].len);
+      for (uint64_t g = off + C.files[k].len - nz; g < off + C.files[k].len; g++) T.content[g] = 0;
+      any = true;
+    }
+    if (any) {
+      std::string key = "6:pieces" + std::to_string((size_t)np * 20) + ":";
+      size_t pos = info.find(key);
+      if (pos == std::string::npos) return "BADCASE pieces";
+      for (uint32_t i = 0; i < np; i++) {
+        unsigned char md[20];
+        uint64_t a = (uint64_t)i * spec.piece_length, b = std::min<uint64_t>(a + spec.piece_length, T.content.size());
+        SHA1((const unsigned char*)T.content.data() + a, b - a, md);
+        info.replace(pos + key.size() + (size_t)i * 20, 20, (const char*)md, 20);
+      }
+    }
+  }
   // ---- perturbations
   std::string disk = T.content;
   std::vector<int> kind(C.files.size(), 0);   // 0 normal 1 M 2 N 3 Ul 4 Ud 5 Un
   std::vector<int64_t> trunc(C.files.size(), -1), ext(C.files.size(), 0);
-  std::string info = T.info_bytes;
   for (auto& t : pert) {
     char k = t[0];
     std::string a = t.substr(1), b;
@@ -240,6 +271,7 @@ std::string run_case(Session& S, const std::string& line, uint32_t serial) {
       case 'U': kind[x] = b == "l" ? 3 : b == "d" ? 4 : 5; break;
       case 'T': trunc[x] = std::stoll(b); break;
       case 'E': ext[x] = std::stoll(b); break;
+      case 'Z': break;
       default: return "BADCASE pert";
     }
   }
